@@ -22,6 +22,7 @@ TRUSTED_BASE = [
 ASSUMPTIONS = [
     "input bytes are < 256 (C++ char); reader positions are modelled as suffixes of the immutable input, mStartPos as the suffix at the first member",
     "documents of the theorems: every value the reference decoder accepts whose maps (at every depth) have keys of the supported kinds (string, integer, float, double, timestamp 32/64/96), pairwise different under the library's key equality; timestamp 96 is read in the library's field order (known finding F08 of C06/C07)",
+    "requests from inside a VisitKeys callback (history item E: the i-th action under the i-th visited key, what SerializeMapImpl does): the callback's key is modelled as the code has it, a REFERENCE to the scope's key slot (find_value_by_key_ref); the refinement theorem covers them on documents without NaN keys (T_C03_mp_refines_outside); on documents with a NaN key the specification is refuted (T_C03_mp_refines_refuted, known finding M01): there the implementation is compared with the model only and the judge reports the class as KNOWN",
     "the reader's mCloseScopeFailed flag (8d03f7f) is observed directly for kinds m, s (IsCloseScopeFailed() after the root scope is gone) and through MsgPackReadRootScope::Finalize() for kinds M, S, called after an error-free history as LoadObject does; after an exception the flag is not observed (LoadObject does not call Finalize() then)",
     "request keys are passed as std::string, uint64_t, int64_t, float, double or CBinTimestamp; targets are the ReadValue overloads (bool, char, (u)int8..64, nullptr_t, float, double, string_view, CBinTimestamp); container targets of the archive layer (vector, map, tuple, classes) reach the scopes through exactly these calls but are not themselves part of this check (C18/C17 own the archive layer)",
     "after an exception thrown from inside a value by a typed read the reader position is not determined by the model; the unwinding destructors cannot throw (all their reads stand inside try/catch since 0863f96 / 49f9936 / 3580349), so the answer is the exception in every case and TERMINATE never agrees with the model",
@@ -234,9 +235,11 @@ def parse_history(s):
                 nd["key"] = f[1]
             elif f[0] == "g":
                 nd["tg"] = f[1]
-            elif f[0] == "b":
+            elif f[0] in ("b", "c"):
                 nd["n"] = int(f[1])
-            if f[0] in "OAoa":
+            elif f[0] == "x":
+                nd["tg"] = f[1]
+            if f[0] in "OAoaEc":
                 assert toks[pos[0]] == "("
                 pos[0] += 1
                 nd["body"] = items()
@@ -263,11 +266,13 @@ def fmt_history(items):
                 out.append("%s:%s" % (k, nd["key"]))
             elif k == "g":
                 out.append("g:" + nd["tg"])
-            elif k == "b":
-                out.append("b:%d" % nd["n"])
+            elif k in ("b", "c"):
+                out.append("%s:%d" % (k, nd["n"]))
+            elif k == "x":
+                out.append("x:" + nd["tg"])
             else:
                 out.append(k)
-            if k in "OAoa":
+            if k in "OAoaEc":
                 out.append("(")
                 go(nd["body"])
                 out.append(")")
@@ -284,6 +289,7 @@ class Eval:
         self.pol = pol
         self.toks = []
         self.partial = False     # an array / byte-array child was left with elements unread (class of F14)
+        self.ref_alias = False   # a keyed request from a VisitKeys callback under a key that does not equal itself (class of M01)
 
     def lookup(self, kvs, key):
         for k, v in kvs:
@@ -324,6 +330,11 @@ class Eval:
             if k == "V":
                 self.toks.append("K[" + ";".join(visit_key_text(x) for x in keys) + "]")
                 continue
+            if k == "E":
+                # VisitKeys with a callback: the i-th action under the i-th key (document order)
+                for kk, act in zip(keys, nd["body"]):
+                    self.keyed(kvs, kk, act)
+                continue
             found, v = self.lookup(kvs, parse_key(nd["key"]))
             if k == "G":
                 self.toks.append(typed(self.pol, nd["tg"], v) if found else "F")
@@ -354,6 +365,50 @@ class Eval:
                     self.toks.append("n")
             else:
                 raise ValueError(k)
+
+    def keyed(self, kvs, kk, act):
+        a = act["k"]
+        if a == "k":
+            return
+        if a == "x":
+            raise Stop(act["tg"])
+        if not key_eq(kk, kk):
+            self.ref_alias = True
+        found, v = self.lookup(kvs, kk)
+        if a == "g":
+            self.toks.append(typed(self.pol, act["tg"], v) if found else "F")
+        elif a == "o":
+            if not found:
+                self.toks.append("n")
+            elif isinstance(v, tuple) and v[0] == "map":
+                self.toks.append("(")
+                self.obj(v[1], act["body"])
+                self.toks.append(")")
+            else:
+                self.not_container(v)
+        elif a in ("a", "c"):
+            if a == "c":
+                if found and isinstance(v, tuple) and v[0] == "bin":
+                    self.bytes_child(v[1], act["n"])
+                    return
+                self.toks.append("n")
+            if not found:
+                self.toks.append("n")
+            elif isinstance(v, list):
+                self.toks.append("(")
+                left = self.arr(v, act["body"])
+                self.toks.append(")")
+                if left:
+                    self.partial = True
+            else:
+                self.not_container(v)
+        elif a == "b":
+            if found and isinstance(v, tuple) and v[0] == "bin":
+                self.bytes_child(v[1], act["n"])
+            else:
+                self.toks.append("n")
+        else:
+            raise ValueError(a)
 
     def arr(self, vs, items):
         vs = list(vs)
@@ -398,7 +453,7 @@ class Eval:
 
 
 def expected(line):
-    """(answer the property demands, partial-child flag) for a case on a well-formed document;
+    """(answer the property demands, the evaluation with its class flags) for a case on a well-formed document;
     raises Unjudged for documents / requests outside the property's domain, M.Bad for ill-formed documents"""
     t = line.split(" ")
     op, kind, pol, doc, hist = t
@@ -424,7 +479,7 @@ def expected(line):
             else:
                 ev.not_container(v)
     except Stop as s:
-        return (",".join(ev.toks) if ev.toks else "-") + " ERR " + s.cat, ev.partial
+        return (",".join(ev.toks) if ev.toks else "-") + " ERR " + s.cat, ev
     # sentinel: one more int64 read after the document
     pos = "?" if kind in "MS" else str(i)
     try:
@@ -440,7 +495,7 @@ def expected(line):
         sent = None
     # a well-formed document: no scope fails to skip its rest, Finalize() has nothing to report
     ans = "%s END %s %s %s" % (",".join(ev.toks) if ev.toks else "-", pos, sent, "OK" if kind in "MS" else "CF0")
-    return (ans if sent is not None else None), ev.partial
+    return (ans if sent is not None else None), ev
 
 
 def is_failure(ans):
@@ -471,11 +526,25 @@ def same(a, b, line=None):
     return False
 
 
+# known finding M01 (T_C03_mp_refines_refuted): VisitKeys gives the callback a REFERENCE to the scope's key slot.
+# Class: a keyed request made from the callback under a visited key that does not equal itself (NaN float / double):
+# the search it starts overwrites the slot, the next key of that kind matches itself, another member is loaded
+# under the NaN key and the enumeration goes on from there.  The class is excused only while the finding is listed
+# as `known` (known_findings.jsonl; the built-in entry stands in until the coordinator has recorded it).
+M01 = dict(status="known", property="C03", id="M01", driver=DRIVER,
+           case="hist m SS 82ca7fc0000001ca3f80000002 E,(,g:s32,g:s32,)", implementation="(,T+2,) END 13 ERR:P CF0",
+           what="VisitKeys passes the callback a reference to the scope's own key slot: a keyed load under a NaN float/double key "
+                "(what SerializeMapImpl does for std::map<float,...>) searches on, ReadKey overwrites the slot, the next key of the "
+                "same kind equals itself: {NaN:1, 1.0f:2} loads 2 under the NaN key and the enumeration ends (T_C03_mp_refines_refuted). "
+                "Class: request from inside a VisitKeys callback under a key that does not equal itself")
+ACTIVE_KNOWN = set()
+
+
 def judge(line, impl):
-    """HOLD / FAIL / UNKNOWN for an implementation answer, by the independent evaluation.
+    """HOLD / FAIL / KNOWN / UNKNOWN for an implementation answer, by the independent evaluation.
     (F14 and F17 are repaired: a partly-read array / byte-array child is no excuse any more.)"""
     try:
-        exp, partial = expected(line)
+        exp, ev = expected(line)
     except M.Bad:
         if " ERR " in impl:
             return "HOLD", "ill-formed document reported by an exception"
@@ -490,6 +559,8 @@ def judge(line, impl):
         return "UNKNOWN", "data after the document is ill-formed"
     if impl == exp:
         return "HOLD", "as the association-list evaluation"
+    if ev.ref_alias and "M01" in ACTIVE_KNOWN:
+        return "KNOWN", "class of known finding M01 (callback key by reference, NaN key); the association-list evaluation expects: %s" % exp
     return "FAIL", "the association-list evaluation expects: %s" % exp
 
 
@@ -642,6 +713,30 @@ def obj_history(rng, kvs, depth, budget, length=None):
         r = rng.random()
         if r < 0.04:
             items.append({"k": "V"})
+            continue
+        if r < 0.09:
+            acts = []
+            for _, v in kvs[:rng.choice([len(kvs), len(kvs), rng.randrange(0, len(kvs) + 2)])]:
+                ra = rng.random()
+                if ra < 0.08:
+                    acts.append({"k": "k"})
+                elif ra < 0.10:
+                    acts.append({"k": "x", "tg": rng.choice("MO")})
+                elif isinstance(v, tuple) and v[0] == "map" and ra < 0.85:
+                    acts.append({"k": "o", "body": obj_history(rng, v[1], depth + 1, budget)})
+                elif isinstance(v, list) and ra < 0.85:
+                    if rng.random() < 0.4:
+                        acts.append({"k": "c", "n": 1, "body": arr_history(rng, v, depth + 1, budget)})
+                    else:
+                        acts.append({"k": "a", "body": arr_history(rng, v, depth + 1, budget)})
+                elif isinstance(v, tuple) and v[0] == "bin" and ra < 0.85:
+                    n = len(v[1]) if rng.random() < 0.7 else rng.randrange(0, len(v[1]) + 2)
+                    acts.append({"k": rng.choice("bc"), "n": n, "body": []})
+                elif ra < 0.93:
+                    acts.append({"k": "g", "tg": target_for(rng, v)})
+                else:
+                    acts.append({"k": rng.choice("oabc"), "n": 1, "body": []})
+            items.append({"k": "E", "body": acts})
             continue
         if present and r < 0.80:
             k, v = rng.choice(present)
@@ -805,12 +900,40 @@ def features(line):
         f.append("children")
     if "V" in h.split(","):
         f.append("visit")
+    if "E" in h.split(","):
+        f.append("each")
     return " ".join(f)
 
 
 def spec_line(line):
     t = line.split(" ")
     return " ".join([("spec" if t[0] == "hist" else "aspec")] + t[1:])
+
+
+def keys_refl(v):
+    """every map key at every depth equals itself (keys_refl of MpScopeSpec.v)"""
+    if isinstance(v, list):
+        return all(keys_refl(x) for x in v)
+    if isinstance(v, tuple) and v[0] == "map":
+        for k, x in v[1]:
+            kk = key_of_value(k)
+            if kk is not None and not key_eq(kk, kk):
+                return False
+            if not keys_refl(x):
+                return False
+    return True
+
+
+def inside_theorems(line):
+    """hypothesis of T_C03_mp_refines_outside: no request from inside a VisitKeys callback, or no NaN key"""
+    t = line.split(" ")
+    if "E" not in t[4].split(","):
+        return True
+    try:
+        v, _ = M.dec_value(bytes.fromhex(t[3]) if t[3] != "-" else b"")
+    except (M.Bad, RecursionError):
+        return False
+    return keys_refl(v)
 
 
 def spec_vs_model(line, m, sp):
@@ -834,11 +957,17 @@ def spec_vs_model(line, m, sp):
 
 def known_entries(vlib):
     kn = [k for k in vlib.load_known("C03") if k.get("driver", DRIVER) == DRIVER]
-    return [k for k in kn if k.get("status") == "known"]
+    if not any(k.get("id") == "M01" for k in kn):
+        kn.append(M01)
+    kn = [k for k in kn if k.get("status") == "known"]
+    ACTIVE_KNOWN.clear()
+    ACTIVE_KNOWN.update(k["id"] for k in kn)
+    return kn
 
 
 def run(ctx, vlib):
     impl, model = drivers(vlib)
+    kn = known_entries(vlib)
     rng = ctx["rng"]
     tier = ctx["tier"]
     corpus = U.load_corpus("C03")
@@ -875,7 +1004,7 @@ def run(ctx, vlib):
 
     # the statement of the theorems, tested on the extracted model and specification
     nsv = 0
-    sv = [c for c in wf if c.split(" ")[1] == "m"]
+    sv = [c for c in wf if c.split(" ")[1] == "m" and inside_theorems(c)]
     osv = vlib.run_driver(model, [spec_line(c) for c in sv])
     mans = dict(zip(cases, om))
     for c, sp in zip(sv, osv):
@@ -903,7 +1032,6 @@ def run(ctx, vlib):
 
     # known findings: replayed on the implementation, printed only while they reproduce
     known_lines = []
-    kn = known_entries(vlib)
     outs = vlib.run_driver(impl, [k["case"] for k in kn], jobs=1) if kn else []
     for k, o in zip(kn, outs):
         if o == k["implementation"]:
@@ -922,6 +1050,7 @@ def run(ctx, vlib):
 
 def replay(rp, vlib):
     impl, model = drivers(vlib)
+    known_entries(vlib)
     line = rp["case"]
     a = vlib.run_driver(impl, [line], jobs=1)[0]
     b = vlib.run_driver(model, [line], jobs=1)[0]
